@@ -448,6 +448,7 @@ def run(ctx):
         J["graph"] = ex.submit(tlc.dump_graph, SPEC, cfgp("StackArena_GraphQ.cfg" if ctx.quick else "StackArena_Graph.cfg"), 4, 1800)
         if not ctx.quick:
             J["graph3"] = ex.submit(tlc.dump_graph, SPEC, cfgp("StackArena_Graph3.cfg"), 4, 1800)
+        J["pad"] = ex.submit(tlc.dump_graph, SPEC, cfgp("StackArena_Pad.cfg"), 4, 1800)
         J["sim"] = ex.submit(tlc.simulate, SPEC, cfgp("StackArena_Sim.cfg"), nsim, 18, ctx.seed + 1, 1800)
         J["trace"] = ex.submit(tlc.validate_traces, TSPEC, cfgp("StackArenaTrace.cfg"), slim(traces + [c1, c2, c3]), 2400)
         J = {k: v.result() for k, v in J.items()}
@@ -466,8 +467,23 @@ def run(ctx):
         b3, n3 = graph_behaviours(ctx, J["graph3"], "StackArena_Graph3")
         behs += b3
         nedges += n3
+    # the padding lattice: every byte count 0..20 x alignment {1, 8} twice on a 20-byte arena (not a multiple of 8)
+    bpad, npad = graph_behaviours(ctx, J["pad"], "StackArena_Pad")
+    behs += bpad
+    nedges += npad
     sims = sim_behaviours(ctx, J["sim"], "StackArena_Sim")
     allb = [b for b in behs + sims if b[0]["rz"] == 0]
+    # vacuity guard: each relation between alignment padding, request and free space must be replayed, in particular
+    # "sum" = padding > 0, padding <= free and bytes <= free but padding + bytes > free
+    rels = {}
+    for b in allb:
+        for st in b[1:]:
+            if st["ev"]["op"] == "aalloc":
+                rels[st["ev"]["rel"]] = rels.get(st["ev"]["rel"], 0) + 1
+    for rel in ("fit", "bytes", "pad", "sum"):
+        if not rels.get(rel):
+            raise Machinery("vacuity: no replayed arena allocation of class %r (padding/bytes/free relation)" % rel)
+    ctx.notes.append("arena allocation classes replayed: %r" % rels)
     scripts, exps, results = replay_variant(ctx, "plain", exe, allb, "plain")
     # negative controls on the comparer: a perturbed library answer must be flagged
     k = next((i for i, b in enumerate(allb) if results[i] is not None and any(e is not None and e[0] == "cmp" and e[4] is not None and e[1]["op"] == "alloc" and e[2] == "ok"
